@@ -177,6 +177,50 @@ def part_needle(rng):
     return {"kind": "needle", "verts": verts, "faces": orient_star(verts, faces, c), "inner": c, "convex": True}
 
 
+def part_bighull(rng, n=None):
+    """convex hull of n (60..300) points near a sphere: hundreds of faces, so that the closure loop of
+    get_disconnected_faces_subsets and the propagation need many passes under a random face order"""
+    n = n or rng.choice([60, 100, 200, 300])
+    g = _np_rng(rng)
+    pts = g.normal(size=(n, 3))
+    pts /= np.linalg.norm(pts, axis=1, keepdims=True)
+    pts *= rng.uniform(2.0, 5.0) * (1 + 0.03 * g.uniform(-1, 1, size=(n, 1)))
+    return hull_part(pts, "big-hull")
+
+
+def part_subdivided_box(rng, k=None):
+    """box whose six sides are k x k grids of quads, each split in two triangles; vertices shared along the edges"""
+    k = k or rng.choice([3, 4, 5])
+    a, b, c = (rng.randint(2, 5) for _ in range(3))
+    ids, verts, faces = {}, [], []
+
+    def vid(i, j, l):
+        if (i, j, l) not in ids:
+            ids[(i, j, l)] = len(verts)
+            verts.append((a * i / k, b * j / k, c * l / k))
+        return ids[(i, j, l)]
+    for axis in range(3):
+        for side in (0, k):
+            for u in range(k):
+                for v in range(k):
+                    def pt(uu, vv, axis=axis, side=side):
+                        q = [uu, vv]
+                        q.insert(axis, side)
+                        return vid(*q)
+                    p00, p10, p11, p01 = pt(u, v), pt(u + 1, v), pt(u + 1, v + 1), pt(u, v + 1)
+                    if rng.random() < 0.5:
+                        faces += [(p00, p10, p11), (p00, p11, p01)]
+                    else:
+                        faces += [(p00, p10, p01), (p10, p11, p01)]
+    verts = np.array(verts, dtype=float)
+    cen = np.array([a, b, c]) / 2.0
+    return {"kind": "subdivided-box", "verts": verts, "faces": orient_star(verts, faces, cen), "inner": cen,
+            "convex": True}
+
+
+BIG_PARTS = {"big-hull": part_bighull, "subdivided-box": part_subdivided_box}
+
+
 PARTS = {"tetrahedron": part_tetra, "box": part_box, "prism": part_prism, "convex-hull": part_hull,
          "stellated": part_stellated, "l-prism": part_lprism, "torus": part_torus}
 CONVEX_PARTS = ["tetrahedron", "box", "prism", "convex-hull"]
@@ -651,6 +695,9 @@ def gen_base(rng, weights=None):
 
 
 def gen_base0(rng):
+    if rng.random() < 0.03:
+        kind = rng.choice(list(BIG_PARTS))
+        return assemble([BIG_PARTS[kind](rng)], kind, False)
     x = rng.random()
     if x < 0.40:
         return gen_single(rng)
@@ -673,7 +720,10 @@ def search(ctx, n_bases, n_variants):
     # families that every run must contain at least once, then the random stream
     forced = [lambda: gen_spike(rng, True), lambda: gen_spike(rng, False), lambda: gen_needles(rng),
               lambda: add_unused_vertices(rng, gen_single(rng, "convex-hull")),
-              lambda: add_unused_vertices(rng, gen_single(rng, "tetrahedron"))]
+              lambda: add_unused_vertices(rng, gen_single(rng, "tetrahedron")),
+              lambda: assemble([part_bighull(rng, 200)], "big-hull", False),
+              lambda: assemble([part_bighull(rng, 300)], "big-hull", False),
+              lambda: assemble([part_subdivided_box(rng, 5)], "subdivided-box", False)]
     for bi in range(n_bases):
         base = forced[bi]() if bi < len(forced) else gen_base(rng)
         scale = rng.choice(SCALES)
@@ -702,6 +752,189 @@ def search(ctx, n_bases, n_variants):
                               {"kind": "mesh", "mesh": m2, "clause": clause, "scale": sc2, "offset": off2,
                                "ref": None if ref2 is None else [ref2[0], np.asarray(ref2[1]).tolist(),
                                                                  np.asarray(ref2[2]).tolist()]})
+
+
+# =============================================================================== constructors x mode keywords
+# every public way to build a TriangularMesh x the mode keywords: each keyword has exactly its documented effect
+MODE_KEYS = ["reorient_faces", "check_open", "check_disconnected", "check_selfintersecting"]
+MODE_VALUES = [True, False, "warn", "raise", "ignore", "skip"]        # a missing key = keyword omitted (default)
+try:
+    import pyvista as _pv
+except Exception:   # pylint: disable=broad-except
+    _pv = None
+CONSTRUCTORS = ["init", "from_mesh", "from_triangles:list", "from_triangles:Collection", "from_ConvexHull"] + \
+    (["from_pyvista"] if _pv is not None else [])
+
+
+def norm_mode(kw, key):
+    m = kw.get(key, "warn")            # every default (True / 'warn') means 'warn'
+    return "warn" if m is True else "skip" if m is False else m
+
+
+def build_with(constructor, mesh, kw):
+    V = np.asarray(mesh["verts"], dtype=float)
+    F = np.asarray(mesh["faces"], dtype=int)
+    TM = magpy.magnet.TriangularMesh
+    if constructor == "init":
+        return TM(vertices=V, faces=F, polarization=POL, **kw)
+    if constructor == "from_mesh":
+        return TM.from_mesh(mesh=V[F], polarization=POL, **kw)
+    if constructor.startswith("from_triangles"):
+        trias = [magpy.misc.Triangle(vertices=t, polarization=POL) for t in V[F]]
+        if constructor.endswith("Collection"):
+            trias = magpy.Collection(*trias)
+        return TM.from_triangles(triangles=trias, polarization=POL, **kw)
+    if constructor == "from_ConvexHull":
+        return TM.from_ConvexHull(points=V, polarization=POL, **kw)
+    if constructor == "from_pyvista":
+        poly = _pv.PolyData(V, np.hstack([np.full((len(F), 1), 3), F]).ravel())
+        return TM.from_pyvista(polydata=poly, polarization=POL, **kw)
+    raise ValueError(constructor)
+
+
+WARN_KINDS = {"open": "Open mesh detected", "reorient-open": "can give bad results",
+              "disconnected": "Disconnected mesh detected", "selfintersecting": "Self-intersecting mesh detected"}
+
+
+def check_modes(constructor, mesh, kw):
+    """-> list of (observable, what): deviations from the documented effect of the mode keywords.
+    mesh carries the ground truth: closed / disconnected / selfint (None = do not judge)."""
+    V = np.asarray(mesh["verts"], dtype=float)
+    F = np.asarray(mesh["faces"], dtype=int)
+    if constructor == "from_ConvexHull":
+        F = np.asarray(ConvexHull(V).simplices, dtype=int)
+        t_open, t_disc, t_self = False, False, False
+    else:
+        t_open = truth_open(F.tolist())
+        t_disc = len(truth_components(F.tolist())) > 1
+        t_self = truth_selfintersecting(mesh)
+    T_in = V[F]
+    mr, mo, md, ms = (norm_mode(kw, k) for k in MODE_KEYS)
+    if t_self is None and ms != "skip":
+        return []
+    exp_raise = (mo == "raise" and t_open) or (md == "raise" and t_disc) or \
+        (mr == "raise" and t_open) or (ms == "raise" and bool(t_self))
+    with warnings.catch_warnings(record=True) as rec:
+        warnings.simplefilter("always")
+        try:
+            src = build_with(constructor, mesh, kw)
+            raised = None
+        except ValueError as e:
+            raised = e
+        except Exception as e:   # pylint: disable=broad-except
+            return [("exception", f"raised {type(e).__name__}: {e}")]
+    out = []
+    if exp_raise != (raised is not None):
+        out.append(("raise", f"ValueError {'expected' if exp_raise else 'not expected'} "
+                    f"(open={t_open} disconnected={t_disc} selfintersecting={t_self}) but "
+                    f"{'raised: ' + str(raised)[:80] if raised is not None else 'none was raised'}"))
+    if raised is not None or exp_raise:
+        return out
+    # status flags: computed (and right) iff the check is not skipped
+    if mo != "skip":
+        exp = [t_open]
+    elif mr != "skip":
+        exp = [t_open, None]          # reorient_faces documents that it applies check_open when it was skipped
+    else:
+        exp = [None]
+    if not any(src.status_open is e if e is None else (src.status_open is not None and bool(src.status_open) == e)
+               for e in exp):
+        out.append(("status_open", f"status_open={src.status_open!r}, documented: {exp}"))
+    for name, mode, truth, got in (("status_disconnected", md, t_disc, src.status_disconnected),
+                                   ("status_selfintersecting", ms, t_self, src.status_selfintersecting)):
+        if mode == "skip":
+            if got is not None:
+                out.append((name, f"{name}={got!r} although the check was skipped"))
+        elif got is None or bool(got) != bool(truth):
+            out.append((name, f"{name}={got!r}, ground truth {truth}"))
+    if bool(src.status_reoriented) != (mr != "skip"):
+        out.append(("status_reoriented", f"status_reoriented={src.status_reoriented} with reorient_faces={mr!r}"))
+    # faces: the input triangles in the input order, reversed only by the reorientation
+    R = np.asarray(src.mesh)
+    if R.shape != T_in.shape:
+        out.append(("faces", f"mesh has shape {R.shape}, input {T_in.shape}"))
+    else:
+        same = np.all(R == T_in, axis=(1, 2))
+        flipped = np.all(R == T_in[:, [0, 2, 1]], axis=(1, 2))
+        if not np.all(same | flipped):
+            out.append(("faces", "a face is neither the input triangle nor its reversal"))
+        elif mr == "skip":
+            if not np.all(same):
+                out.append(("faces", f"{int((~same).sum())} faces were reversed although reorient_faces was skipped"))
+        elif not t_open and t_self is False:
+            bad = components_outward(np.asarray(src.vertices), np.asarray(src.faces).tolist())
+            if bad:
+                out.append(("faces", "reorientation was requested but a component is not wound outwards "
+                            f"({sum(map(len, bad))} faces)"))
+    # warnings: present iff mode 'warn' and the condition holds
+    msgs = [str(w.message) for w in rec]
+    exp_w = {"open": t_open and (mo == "warn" or (mo == "skip" and mr == "warn")),
+             "reorient-open": t_open and mr == "warn",
+             "disconnected": t_disc and md == "warn",
+             "selfintersecting": bool(t_self) and ms == "warn"}
+    for kind, text in WARN_KINDS.items():
+        got = any(text in m for m in msgs)
+        if got != bool(exp_w[kind]):
+            out.append(("warning-" + kind, f"warning '{text}...' {'missing' if exp_w[kind] else 'issued'} "
+                        f"(modes reorient={mr} open={mo} disconnected={md} selfintersecting={ms}; "
+                        f"open={t_open} disconnected={t_disc} selfintersecting={t_self})"))
+    return out
+
+
+def mode_bodies(rng):
+    """small bodies on which every keyword has an observable effect: inward faces / open / disconnected /
+    self-intersecting"""
+    out = []
+    for name, mk in (("closed-inward", lambda: gen_single(rng, rng.choice(["convex-hull", "tetrahedron"]))),
+                     ("open", lambda: delete_faces(rng, gen_single(rng, rng.choice(["box", "prism", "convex-hull"])))),
+                     ("disconnected", lambda: assemble(place_apart(rng, [PARTS[rng.choice(CONVEX_PARTS)](rng)
+                                                                         for _ in range(2)]), "disjoint-union", False)),
+                     ("selfintersecting", lambda: gen_spike(rng))):
+        base = mk()
+        nf, nv = len(base["faces"]), len(base["verts"])
+        m = apply_transform(base, gen_transform(rng, nf, nv, ["perm", "flip", "rot"]))
+        m["body"] = name
+        out.append(m)
+    return out
+
+
+def kw_name(kw):
+    return ",".join(f"{k}={kw[k]!r}" for k in MODE_KEYS if k in kw) or "defaults"
+
+
+def mode_sweep(ctx, n_random, full_product):
+    rng = ctx.rng
+    bodies = mode_bodies(rng)
+    combos = [{}] + [{k: v} for k in MODE_KEYS for v in MODE_VALUES]
+    for _ in range(n_random):
+        combos.append({k: rng.choice(MODE_VALUES) for k in MODE_KEYS if rng.random() < 0.75})
+    for con in CONSTRUCTORS:
+        cs = list(combos)
+        if full_product and con in ("init", "from_mesh"):
+            vals = [None] + MODE_VALUES
+            cs = [{k: v for k, v in zip(MODE_KEYS, c) if v is not None}
+                  for c in itertools.product(vals, repeat=len(MODE_KEYS))]
+        for m in bodies:
+            if con == "from_ConvexHull" and m["body"] != "closed-inward":
+                continue
+            for kw in cs:
+                res = check_modes(con, m, kw)
+                ctx.case(("modes", con, m["body"], kw_name(kw), json.dumps(m["faces"])), True)
+                ctx.bump("modes:" + con)
+                ctx.bump("modes-body:" + m["body"])
+                for obs, what in res:
+                    # smallest keyword set on which the same observable still deviates
+                    small = kw
+                    for k in range(0, len(kw)):
+                        hit = [dict(c) for c in map(dict, itertools.combinations(kw.items(), k))
+                               if any(o == obs for o, _ in check_modes(con, m, dict(c)))]
+                        if hit:
+                            small = hit[0]
+                            break
+                    what2 = [w for o, w in check_modes(con, m, small) if o == obs] or [what]
+                    ctx.impl_fail(f"mode-keywords/{con}:{obs}:{kw_name(small)}",
+                                  f"{con}({kw_name(small)}) on a {m['body']} mesh: {what2[0]}",
+                                  {"kind": "modes", "constructor": con, "mesh": m, "kw": small, "observable": obs})
 
 
 # =============================================================================== correspondence
@@ -931,6 +1164,8 @@ def run(ctx):
     big = bool(ctx.broken)
     nb = ctx.n(60, 1200) * (5 if big else 1)
     run_guarded(ctx, lambda: search(ctx, nb, ctx.n(6, 9)), "C16 search")
+    run_guarded(ctx, lambda: mode_sweep(ctx, ctx.n(40, 400) * (3 if big else 1), ctx.tier == "thorough"),
+                "C16 constructors x mode keywords")
 
 
 def replay(ctx, obj):
@@ -941,6 +1176,12 @@ def replay(ctx, obj):
         res = check_mesh(rp["mesh"], ref)
         hit = [w for c, w in res if c == rp.get("clause")] or [w for _, w in res]
         print("replay:", "property holds on this mesh" if not res else "FAILS: " + "; ".join(hit))
+        if res:
+            print(f"VIOLATION property=C16 replay={obj.get('how_to_rerun', '').split()[-1] or 'given'}")
+        return 1 if res else 0
+    if rp.get("kind") == "modes":
+        res = [(o, w) for o, w in check_modes(rp["constructor"], rp["mesh"], rp["kw"]) if o == rp.get("observable")]
+        print("replay:", "documented keyword behaviour holds" if not res else "FAILS: " + "; ".join(w for _, w in res))
         if res:
             print(f"VIOLATION property=C16 replay={obj.get('how_to_rerun', '').split()[-1] or 'given'}")
         return 1 if res else 0
